@@ -132,12 +132,17 @@ CHECKS = {
         note="Partial by nature: a theorem about the model cannot exhibit a Go runtime panic outside the mirrored sites; the runs sample inputs. Wall-clock bound 900 s per run. Diagnostic-level model/implementation differences on these inputs are counted in the evidence, not reported (generics, //line files are outside the C01-C05 fragments).",
         technique="Coq proof (modelled partial operations never fail; structural termination) + outcome correspondence over guard-targeted programs and annotation-injected corpora, three drivers"),
     "C15": dict(
-        text=("Obligations (Coq, by computation on the seven regex syntax trees regenerated from the source with Go's own regexp/syntax): all classes within ASCII, nothing untranslated. "
-              "The parsers (regex + split/trim/upper post-processing) and the reader's attachment rules are the executable model run against the real readers: exhaustive token sequences per "
-              "keyword at its attachment site, every argument shape at every site incl. the inert placements, two-keyword lines, fuzz; and Go's regexp vs the library model on arbitrary bytes "
-              "with submatch indices. [theorems about the matcher's language are being added; see DESIGN 5 (C15)]"),
-        note="Comment strings that can occur in a Go source file (valid UTF-8, one line) at the API level; arbitrary bytes at the regex level. Go's regexp is a library model (Regex.v).",
-        technique="Coq obligations over the regenerated regex ASTs + exhaustive bounded and fuzzed reader/regex correspondence"),
+        text=("Theorems (Coq, EVERY comment text - any bytes, line breaks included): each of the seven parsers equals an executable recogniser written from the documentation. Flags "
+              "(@immutable, @testonly, @mutable): blanks, //, blanks, the keyword, then nothing or at least one blank followed by text without a line break - also in declarative form "
+              "(exists w1 w2 rest, s = w1 ++ // ++ w2 ++ keyword ++ rest ...). @implements: after the common head at least one blank, an optional &, an identifier, optionally a dot and "
+              "a second identifier, all by maximal munch, then the free-text tail; the three fields are exactly those pieces (captures proved equal to the texts). @constructor, @packageonly, "
+              "@ignore: an item, any number of 'blanks , blanks item', optionally 'blanks ,', taken as far as possible such that the free-text tail follows (longest chain first, with the "
+              "trailing comma before without), then split on commas / trim / drop empties / upper-case for @ignore; the list is always followed by the tail. Proved through lemmas about "
+              "the backtracking matcher (class star = greedy with give-back, determinism under head-rejecting continuations, literals, anchors, star over a deterministic body) and tied to the "
+              "source by by-computation obligations: the expressions regenerated on this run with Go's own regexp/syntax ARE those shapes. The matcher is a library model of package regexp, "
+              "compared with Go's regexp on arbitrary bytes with submatch indices; the readers' attachment rules (incl. grouped declarations) are compared exhaustively on bounded token sequences."),
+        note="Comment strings at the API level are valid UTF-8 single lines; the theorems hold for all byte strings. Go's regexp is a library model (Regex.v). Maximality of the chosen list end among ALL well-formed list prefixes is proved only as 'first in the matcher's documented try order'.",
+        technique="Coq proof (each parser = documented recogniser, for all strings; matcher lemmas) + obligations on the regenerated regex ASTs + exhaustive bounded and fuzzed reader/regex correspondence"),
     "C08": dict(
         text=("Theorems (Coq, every package tree, facts, suppression function and exclusion list): with a project-wide exclusion the suppression decision is 'excluded or suppressed as before' "
               "(from the C16 history theorem); each checker's output under it equals the FILTER of its unrestricted output — for report-time filtering (IMM, CTOR) and for detection-time "
